@@ -80,7 +80,7 @@ func (f fault) String() string { return fmt.Sprintf("%s(%d)+%v", f.Kind, f.Arg, 
 var faultKinds = []string{"isolate-leader", "isolate-node", "split", "heal", "stepdown", "crash", "crash-leader", "restart", "delay", "flap", "flap-leader", "isolate-leader",
 	"reset", "reset-leader", "reset-storm", "delay"}
 
-var flakyKinds = []string{"delay", "reset-storm", "reset-storm-leader", "reset-storm-leader", "reset", "reset-leader", "stepdown", "delay-leader"}
+var flakyKinds = []string{"delay", "reset-storm", "reset-storm-leader", "reset-storm-follower", "reset-storm-follower", "reset", "reset-leader", "stepdown", "delay-leader", "delay-follower"}
 
 type plan struct {
 	Flaky   bool // transport-flakiness profile: delays and connection resets only, more increments
@@ -90,7 +90,7 @@ type plan struct {
 }
 
 func genPlan(rt *rapid.T) plan {
-	p := plan{Size: []int{3, 3, 5}[rapid.IntRange(0, 2).Draw(rt, "size")], Flaky: rapid.IntRange(0, 2).Draw(rt, "profile") == 0}
+	p := plan{Size: []int{3, 3, 5}[rapid.IntRange(0, 2).Draw(rt, "size")], Flaky: rapid.IntRange(0, 1).Draw(rt, "profile") == 0}
 	nc := rapid.IntRange(3, 4).Draw(rt, "clients")
 	perClient := rapid.IntRange(12, vstat.Scale(24, 26)).Draw(rt, "opsPerClient")
 	for c := 0; c < nc; c++ {
@@ -114,8 +114,16 @@ func genPlan(rt *rapid.T) plan {
 	nf := rapid.IntRange(1, 6).Draw(rt, "nfaults")
 	if p.Flaky {
 		// a slow leader link first: requests stay in flight long enough for resets to hit them
-		p.Faults = append(p.Faults, fault{Kind: "delay-leader", Arg: rapid.IntRange(5, 31).Draw(rt, "arg0"), After: 40 * time.Millisecond})
-		nf--
+		// a slow link at one follower first (requests forwarded by it stay in flight longer), then
+		// resets of that follower's connections; the same Arg selects the same follower
+		a0 := rapid.IntRange(0, 31).Draw(rt, "arg0")
+		p.Faults = append(p.Faults, fault{Kind: "delay-follower", Arg: a0, After: 40 * time.Millisecond})
+		p.Faults = append(p.Faults, fault{Kind: "reset-storm-follower", Arg: a0,
+			After: time.Duration([]int{40, 120, 250, 400}[rapid.IntRange(0, 3).Draw(rt, "after1")]) * time.Millisecond})
+		if nf < 3 {
+			nf = 3
+		}
+		nf -= 2
 	}
 	for i := 0; i < nf; i++ {
 		kinds := faultKinds
@@ -354,6 +362,19 @@ func (w *world) runFault(f fault, size int) {
 		return ""
 	}
 	pick := names[f.Arg%size]
+	follower := func() string { // the (Arg mod #followers)-th live non-leader
+		l := leaderName()
+		var fs []string
+		for _, nm := range names {
+			if nm != l && w.isUp(nm) {
+				fs = append(fs, nm)
+			}
+		}
+		if len(fs) == 0 {
+			return pick
+		}
+		return fs[f.Arg%len(fs)]
+	}
 	desc := f.Kind
 	markLeader := func() {
 		w.mu.Lock()
@@ -484,24 +505,30 @@ func (w *world) runFault(f fault, size int) {
 			w.c.Net.DropNode(l)
 			desc += " " + l
 		}
-	case "reset-storm", "reset-storm-leader":
+	case "reset-storm", "reset-storm-leader", "reset-storm-follower":
 		if f.Kind == "reset-storm-leader" {
 			if l := leaderName(); l != "" {
 				pick = l
 			}
 		}
-		// a flaky link: the node's connections are reset every few ms for a while
-		n := 15 + f.Arg
+		if f.Kind == "reset-storm-follower" {
+			pick = follower()
+		}
+		// a flaky link: the node's connections are reset every 15-105 ms for a while
+		n := 6 + f.Arg%10
 		for i := 0; i < n; i++ {
 			w.c.Net.DropNode(pick)
-			time.Sleep(time.Duration(4+f.Arg%12) * time.Millisecond)
+			time.Sleep(time.Duration(15+(f.Arg*7)%90) * time.Millisecond)
 		}
 		desc += fmt.Sprintf(" %s x%d", pick, n)
-	case "delay", "delay-leader":
+	case "delay", "delay-leader", "delay-follower":
 		if f.Kind == "delay-leader" {
 			if l := leaderName(); l != "" {
 				pick = l
 			}
+		}
+		if f.Kind == "delay-follower" {
+			pick = follower()
 		}
 		d := time.Duration(5+f.Arg) * time.Millisecond
 		for _, nm := range names {
